@@ -6,6 +6,11 @@ MODULES = ["SunriseVerif.Props.C09"]
 
 def run(ctx):
     da_common.run(ctx, "C09", MODULES)
+    # directed slash-epoch histories with validators jailed / not bonded at the boundary while carrying fault counters
+    # (state the message-driven `da` suite cannot reach); oracle only: slash_iff, fault_reset, challenge_counter
+    from lib import fw
+    res = fw.corr(ctx, "daepoch", 150 if ctx.thorough() else 25, driver_suite=False)
+    fw.report_corr(ctx, "daepoch", res, known_features=lambda f: {"check": f["check"]})
 
 
 def replay(ctx, path):
